@@ -520,15 +520,15 @@ theorem loop_state_const (f : σ → α → Step σ β) (h : ∀ s v, (f s v).st
     · rw [hf] at hv; simp only at hv; subst hv
       simp [loop, hf]
 
-theorem mapBinsRounds_st (v : Item) (h : HistD) (d : Dict) (res : List CellRes) (s : σ) :
-    ∀ (fuel k : Nat) (acc : List Item), (mapBinsRounds v h d res s fuel k acc).st = s
+theorem mapBinsRounds_st (dc : Bool) (v : Item) (h : HistD) (d : Dict) (res : List CellRes) (s : σ) :
+    ∀ (fuel k : Nat) (acc : List Item), (mapBinsRounds dc v h d res s fuel k acc).st = s
   | 0, _, _ => rfl
   | fuel + 1, k, acc => by
     unfold mapBinsRounds
     split
     · rfl
     · rfl
-    · exact mapBinsRounds_st v h d res s fuel (k + 1) _
+    · exact mapBinsRounds_st dc v h d res s fuel (k + 1) _
 
 theorem Tok.made_ne (t : Tok) (k : Nat) : Tok.made t k ≠ t := by
   intro h
@@ -556,7 +556,8 @@ theorem allFresh_ite (v : Item) (c : Prop) [Decidable c] (a b : Step σ Item) (h
     (hb : AllFresh v b.out) : AllFresh v (if c then a else b).out := by
   split <;> assumption
 
-theorem toCSV_selected_fresh (s : σ) (v : Item) (h : toCSVSel v = true) : AllFresh v (toCSVStep s v).out := by
+theorem toCSV_selected_fresh (cfg : CsvCfg) (s : σ) (v : Item) (h : toCSVSel v = true) :
+    AllFresh v (toCSVStep cfg s v).out := by
   unfold toCSVSel at h
   simp only [Bool.and_eq_true] at h
   obtain ⟨h1, h2⟩ := h
@@ -581,7 +582,7 @@ theorem toCSV_selected_fresh (s : σ) (v : Item) (h : toCSVSel v = true) : AllFr
     split
     · exact allFresh_nil _
     · exact allFresh_mk _ _ _ _
-  | graph src =>
+  | graph src n =>
     simp only [Data.rowsInfo]
     exact allFresh_mk _ _ _ _
   | _ => simp [Data.hasRows, Data.rowsInfo] at h2
@@ -621,8 +622,8 @@ theorem iterateBins_selected_fresh (sb : BinKind → Bool) (s : σ) (v : Item) (
     obtain ⟨i, _, rfl⟩ := hy
     exact ⟨2 * i, rfl⟩
 
-theorem mapBinsRounds_fresh (v : Item) (h : HistD) (d : Dict) (res : List CellRes) (s : σ) :
-    ∀ (fuel k : Nat) (acc : List Item), AllFresh v acc → AllFresh v (mapBinsRounds v h d res s fuel k acc).out
+theorem mapBinsRounds_fresh (dc : Bool) (v : Item) (h : HistD) (d : Dict) (res : List CellRes) (s : σ) :
+    ∀ (fuel k : Nat) (acc : List Item), AllFresh v acc → AllFresh v (mapBinsRounds dc v h d res s fuel k acc).out
   | 0, _, acc, ha => by
     intro y hy
     simp only [mapBinsRounds, List.mem_reverse] at hy
@@ -636,15 +637,15 @@ theorem mapBinsRounds_fresh (v : Item) (h : HistD) (d : Dict) (res : List CellRe
     · intro y hy
       simp only [List.mem_reverse] at hy
       exact ha y hy
-    · apply mapBinsRounds_fresh v h d res s fuel (k + 1)
+    · apply mapBinsRounds_fresh dc v h d res s fuel (k + 1)
       intro y hy
       simp only [List.mem_cons] at hy
       rcases hy with rfl | hy
       · exact ⟨2 * k, rfl⟩
       · exact ha y hy
 
-theorem mapBins_selected_fresh (sb : BinKind → Bool) (inner : Item → CellRes) (s : σ) (v : Item)
-    (h : mapBinsSel sb v = true) : AllFresh v (mapBinsStep sb inner s v).out := by
+theorem mapBins_selected_fresh (sb : BinKind → Bool) (inner : Item → CellRes) (dc : Bool) (s : σ) (v : Item)
+    (h : mapBinsSel sb v = true) : AllFresh v (mapBinsStep sb inner dc s v).out := by
   unfold mapBinsSel at h
   unfold mapBinsStep
   revert h
@@ -652,7 +653,26 @@ theorem mapBins_selected_fresh (sb : BinKind → Bool) (inner : Item → CellRes
   intro h
   cases data <;> simp only at h <;> try contradiction
   simp only [h, Bool.not_true, Bool.false_eq_true, if_false]
-  exact mapBinsRounds_fresh _ _ _ _ _ _ _ _ (allFresh_nil _)
+  exact mapBinsRounds_fresh _ _ _ _ _ _ _ _ _ (allFresh_nil _)
+
+theorem groupOut_fresh (v : Item) (c : Ctx) (newVals : List (List Item)) (n : Nat) :
+    ∀ (fuel k : Nat) (acc : List Item), AllFresh v acc → AllFresh v (groupOut v c newVals n fuel k acc).1
+  | 0, _, acc, ha => by
+    intro y hy
+    simp only [groupOut, List.mem_reverse] at hy
+    exact ha y hy
+  | fuel + 1, k, acc, ha => by
+    unfold groupOut
+    split
+    · intro y hy
+      simp only [List.mem_reverse] at hy
+      exact ha y hy
+    · apply groupOut_fresh v c newVals n fuel (k + 1)
+      intro y hy
+      simp only [List.mem_cons] at hy
+      rcases hy with rfl | hy
+      · exact ⟨2 * k, rfl⟩
+      · exact ha y hy
 
 theorem mapGroup_selected_fresh (inner : σ → List Item → Step σ Item) (s : σ) (v : Item)
     (h : mapGroupSel v = true) : AllFresh v (mapGroupStep inner s v).out := by
@@ -670,10 +690,7 @@ theorem mapGroup_selected_fresh (inner : σ → List Item → Step σ Item) (s :
       repeat' split
       all_goals first
         | exact allFresh_nil _
-        | (intro y hy
-           simp only [List.mem_map, List.mem_range] at hy
-           obtain ⟨i, _, rfl⟩ := hy
-           exact ⟨2 * i, rfl⟩)
+        | exact groupOut_fresh _ _ _ _ _ _ _ (allFresh_nil _)
 
 theorem passedOf_append (a b : List Emit) : passedOf (a ++ b) = passedOf a ++ passedOf b := by
   simp [passedOf, List.filterMap_append]
